@@ -11,9 +11,9 @@ res=""
 if ! git -C $wt apply $src/patch.diff; then echo "$id: PATCH DOES NOT APPLY to /repo HEAD"; git -C /repo worktree remove --force $wt; exit 3; fi
 (cd $wt && go build ./... ) >/dev/null 2>&1 && res="$res build=ok" || res="$res build=FAIL"
 suite=$(/verif/notes/repotest.sh $wt | head -1); res="$res suite=[$suite]"
-(cd $src && sh ./run.sh $wt) >/tmp/seed-$id-with.log 2>&1; res="$res demo_with_change=exit$?"
+(cd $src && bash ./run.sh $wt) >/tmp/seed-$id-with.log 2>&1; res="$res demo_with_change=exit$?"
 git -C $wt checkout -q -- . ; git -C $wt clean -fdq
-(cd $src && sh ./run.sh $wt) >/tmp/seed-$id-without.log 2>&1; res="$res demo_without=exit$?"
+(cd $src && bash ./run.sh $wt) >/tmp/seed-$id-without.log 2>&1; res="$res demo_without=exit$?"
 git -C /repo worktree remove --force $wt; rm -rf $wt
 echo "$id:$res"
 mkdir -p /verif/seeded/$id && cp -r $src/. /verif/seeded/$id/
